@@ -506,7 +506,7 @@ func c11NewRoot(c *Ctx, rule string) {
 			}
 			be, ok := ast.Unparen(ifs.Cond).(*ast.BinaryExpr)
 			if ok && be.Op == token.EQL && isNilIdent(f, be.Y) {
-				if id, ok := ast.Unparen(be.X).(*ast.Ident); ok && id.Name == "parent" && len(f.Calls(ifs.Body, false, "storage.*.append")) > 0 {
+				if id, ok := ast.Unparen(be.X).(*ast.Ident); ok && id.Name == paramName(f, 0) && len(f.Calls(ifs.Body, false, "storage.*.append")) > 0 {
 					arm = ifs
 				}
 			}
